@@ -5,7 +5,7 @@ from hypothesis import strategies as st
 
 import pytenet as ptn
 from core import Part, require
-from gen_krylov import build, krylov_desc
+from gen_krylov import build, krylov_desc, afunc_of
 
 ID = 'C14'
 RULE = ('cases = (matrix built from a drawn spectrum with gaps >= 0.25 and multiplicities 1..3 and a Haar unitary / '
@@ -13,7 +13,7 @@ RULE = ('cases = (matrix built from a drawn spectrum with gaps >= 0.25 and multi
         'of eigen-directions so that the Krylov dimension k is known by construction, iteration count m in 1..n+3, norm scale '
         '0.1..5). Non-trivial: m >= 2 and n >= 3. Labels record m<k, m=k, m>k, early termination, degenerate spectrum, real input.')
 ASSUME = ['n <= 14 (thorough 24): plain Lanczos keeps orthogonality to 1e-9 in this regime, which is the regime TDVP/DMRG use locally',
-          'relations judged to 1e-9 relative to ||A||; the map is passed as lambda x: A @ x']
+          'relations judged to 1e-9 relative to ||A||; the map is passed as a function returning a fresh array or as a function that returns one reused buffer']
 
 TOL = 1e-9
 
@@ -60,7 +60,7 @@ def check_lanczos(case, rec):
     A0 = A.copy(); v0 = v.copy()
     with warnings.catch_warnings():
         warnings.simplefilter('ignore')
-        alpha, beta, V = ptn.lanczos_iteration(lambda x: A @ x, v, m)
+        alpha, beta, V = ptn.lanczos_iteration(afunc_of(A, case['seed'] // 5), v, m)
     require(np.array_equal(A, A0) and v.tobytes() == v0.tobytes(), 'lanczos_iteration modified the start vector')
     # the returned arrays are judged after the library has been used again: a result must not live in storage that later calls reuse
     snap = (np.array(alpha, copy=True), np.array(beta, copy=True), np.array(V, copy=True))
@@ -101,7 +101,7 @@ def check_arnoldi(case, rec):
     v0 = v.copy()
     with warnings.catch_warnings():
         warnings.simplefilter('ignore')
-        H, V = ptn.arnoldi_iteration(lambda x: A @ x, v, m)
+        H, V = ptn.arnoldi_iteration(afunc_of(A, case['seed'] // 5), v, m)
     require(v.tobytes() == v0.tobytes(), 'arnoldi_iteration modified the start vector')
     snap = (np.array(H, copy=True), np.array(V, copy=True))
     _later_calls(A.shape[0], case['seed'] if 'seed' in case else 0)
